@@ -59,7 +59,15 @@ def get_facts(repo=REPO):
         os.rename(tmp, d)
     except OSError:
         d = tmp
-    ents = sorted((os.path.getmtime(os.path.join(CACHE, e)), e) for e in os.listdir(CACHE))
+    ents = sorted((os.path.getmtime(os.path.join(CACHE, e)), e) for e in os.listdir(CACHE) if e != "ai")
+    aid = os.path.join(CACHE, "ai")
+    if os.path.isdir(aid):
+        aents = sorted((os.path.getmtime(os.path.join(aid, e)), e) for e in os.listdir(aid))
+        for _, e in aents[:-8]:
+            try:
+                os.remove(os.path.join(aid, e))
+            except OSError:
+                pass
     for _, e in ents[:-6]:
         shutil.rmtree(os.path.join(CACHE, e), ignore_errors=True)
     return d, th, False, None
